@@ -65,7 +65,7 @@ func (c03) Budget(tier string) runner.Budget {
 
 func (c03) Describe() runner.Description {
 	return runner.Description{
-		Rule:        "each history is 1..6 seeded blocks of balance/nonce/storage/code mutations (code blobs up to 120 KB; code set and set again inside a reverted snapshot; slots emptied and rewritten inside a reverted snapshot; one-byte values; storage keys that are prefixes of one another; 24..140 slots of one account written at once, so that branch nodes with all sixteen children occur) (about half of the blocks write >100 KiB so that the commit is split over several batch writes; some write nothing new) committed as blockChain.saveStates does (in half of the histories after an IntermediateRoot, as the block executor leaves the state). evaluations = crash images: for every block and EVERY prefix k=0..N of its physical writes, the disk image (everything durable before + first k writes) is opened with a brand-new database and walked completely (account trie, every storage trie, every code blob): all earlier roots must resolve and read back every recorded value; the block's own root must do so whenever its top node is on disk, and always for k=N. A read-error variant makes one disk read fail while a later block executes: the commit may refuse, but if it reports success the root must be complete on disk. A write-error variant makes one physical write fail: Commit must report it and earlier roots stay intact; the same root is then committed again by the surviving process, and if that reports success the root must resolve from disk alone. exhaustive=true refers to the write prefixes of each generated history (the histories themselves are sampled). distinct_nontrivial = distinct (history, block, k) with 0<k<N, i.e. crash points strictly inside a multi-batch commit.",
+		Rule:        "each history is 1..6 seeded blocks of balance/nonce/storage/code mutations (code blobs up to 120 KB; code set and set again inside a reverted snapshot; the same code set twice in one block, with and without an IntermediateRoot in between; slots emptied and rewritten inside a reverted snapshot; one-byte values; storage keys that are prefixes of one another; 24..140 slots of one account written at once, so that branch nodes with all sixteen children occur) (about half of the blocks write >100 KiB so that the commit is split over several batch writes; some write nothing new) committed as blockChain.saveStates does (in half of the histories after an IntermediateRoot, as the block executor leaves the state). evaluations = crash images: for every block and EVERY prefix k=0..N of its physical writes, the disk image (everything durable before + first k writes) is opened with a brand-new database and walked completely (account trie, every storage trie, every code blob): all earlier roots must resolve and read back every recorded value; the block's own root must do so whenever its top node is on disk, and always for k=N. A read-error variant makes one disk read fail while a later block executes: the commit may refuse, but if it reports success the root must be complete on disk. A write-error variant makes one physical write fail: Commit must report it and earlier roots stay intact; the same root is then committed again by the surviving process, and if that reports success the root must resolve from disk alone. exhaustive=true refers to the write prefixes of each generated history (the histories themselves are sampled). distinct_nontrivial = distinct (history, block, k) with 0<k<N, i.e. crash points strictly inside a multi-batch commit.",
 		Assumptions: []string{"crash model = process death: completed physical writes (Put or whole batch) survive, nothing is torn or lost (the code never syncs; the properties speak of process death)", "the reference for every root is what the executing state answered right before its commit (checked against the committed root opened on the live database, and that against every cold image)"},
 		Real:        []string{"storage/account (AccountDB.Commit, account objects)", "storage/trie (NodeDatabase.Commit, commit ordering, batches)", "storage/rlp"},
 		Stub:        []string{"disk: simdisk.KV (write log, crash images, write faults)"},
@@ -195,6 +195,13 @@ func c03Apply(st *account.AccountDB, m c03Mut, seed uint64) {
 		st.SetData(a, c03Slot(m.S), c03Bytes(seed, m.N))
 	case "code":
 		st.SetCode(a, c03Bytes(seed^0x55, m.N))
+		switch m.N % 4 { // the same code set a second time before the commit (an idempotent redeploy / re-executed transaction): still has to be written
+		case 1:
+			st.SetCode(a, c03Bytes(seed^0x55, m.N))
+		case 3:
+			st.IntermediateRoot(false)
+			st.SetCode(a, c03Bytes(seed^0x55, m.N))
+		}
 	case "recode":
 		st.SetCode(a, c03Bytes(seed^0x55, m.N))
 		id := st.Snapshot()
